@@ -69,3 +69,11 @@ Qed.
 
 Lemma dinv_init : dinv dworld_init.
 Proof. intros l. reflexivity. Qed.
+
+(** Two requests race on one limiter with limit 1: both read 0, both are forwarded (the shared
+    counter is not updated atomically — by design of the component); conservation holds. *)
+Example dist_example :
+  let '(w, outs) := dist_run 1 dworld_init [DStart 0 0 0; DStart 0 1 0; DResume 0 5; DResume 1 5; DResume 0 9; DResume 1 9; DStart 0 2 0] in
+  outs = [DWait; DWait; DWait; DWait; DFwd 0 9; DFwd 1 9; DDrop 2] /\
+  d_recv (w_lims w 0) = 3 /\ d_fwd (w_lims w 0) = 2 /\ d_drop (w_lims w 0) = 1 /\ inflight w 0 = 0.
+Proof. vm_compute. repeat split; congruence. Qed.
